@@ -413,7 +413,7 @@ def normalize_power(array, power=1):
 
     """
     array = np.asarray(array)
-    return array * np.sqrt(power/np.sum(np.abs(array)**2))
+    return array * np.sqrt(power/np.sum(np.square(np.abs(array), dtype=float)))
 
 
 def sanitize_shape(shape):
